@@ -125,7 +125,9 @@ pub fn dp_composed(tier: Tier) -> Vec<DpQuery> {
             let pair_ok = r.tables.iter().all(|t| matches!(*t, "users" | "orders"));
             let kind_ok = r.tags.contains(&"inner") || r.tags.contains(&"left");
             let on_ok = r.tags.contains(&"on-eq") || r.tags.contains(&"on-eq-and-cmp") || r.tags.contains(&"on-eq-or-eq");
-            if !(pair_ok && kind_ok && on_ok) {
+            // plus the right / full joins on the plain equality (rows of the non-preserved side without a partner)
+            let outer_ok = (r.tags.contains(&"right") || r.tags.contains(&"full")) && (r.tags.contains(&"on-eq") || r.tags.contains(&"on-eq-and-cmp"));
+            if !(pair_ok && ((kind_ok && on_ok) || outer_ok)) {
                 continue;
             }
         }
@@ -1067,9 +1069,20 @@ fn check_c09(c: &Compiled, plan: &crate::sqlite::Plan, e: &Engine, world: &World
     for (name, t) in &nodes {
         for (ci, col) in t.cols.iter().enumerate() {
             if col.starts_with("_SCALE_FACTOR_") && !col.contains("PRIVACY_UNIT") {
-                let _ = name;
                 if t.rows.iter().any(|row| row[ci].num().map_or(false, |x| (x - 1.0).abs() > 1e-12)) {
-                    r.add_count("skipped_clipping_active", 1);
+                    // With the multiplicity bound at its maximum (min(100, size of the aggregated relation) rows per unit)
+                    // no unit of these instances can exceed it and every value is inside its declared range, so the
+                    // precondition of the property holds and a scale factor below 1 is itself a deviation; at the other
+                    // parameter points a unit may legitimately exceed the bound: those instances are outside the premise.
+                    if c.dp_name.contains("mult=100,mult_share=1,") {
+                        r.violation(
+                            c09_sig("clipping-active-although-within-bounds", c),
+                            &case_id,
+                            json!({"query": c.query.sql, "dp_parameters": c.dp_name, "node": name, "scale_factor_column": col, "table": t.show(), "database": show_db(db), "features": c.features}),
+                        );
+                    } else {
+                        r.add_count("skipped_clipping_active", 1);
+                    }
                     return;
                 }
             }
